@@ -40,6 +40,21 @@ CHECKS = {
  'C16': dict(engine='tapecheck+kernels', technique='property-based testing against closed forms',
    text='Seven numerical kernels are compared with closed forms over generated parameters (monomial exactness, analytic integrals, known extrema, polynomial interpolation, independent rotation matrix, independent complex-Gamma evaluation).',
    note='Integrands are restricted to what the non-adaptive 87-point rule can resolve.', ref='4 C16'),
+ 'C12': dict(engine='threads (forced schedules) + TSan', technique='schedule-controlled concurrency testing: exhaustive and generated interleavings at guarded schedule points, plus free-running ThreadSanitizer runs',
+   text='The harness owns the schedule: guarded schedule points in decay0_gauss serialise the threads in a generated order. All interleavings of 2 threads x 1 call are enumerated (2x2 in the thorough tier), random schedules cover 3 threads and whole generators; a recording GSL handler stands in for the aborting default; results must equal a sequential run. ThreadSanitizer covers everything outside the schedule points.',
+   note='Only the schedule points in gauss.cc are controlled; TSan cannot see the handler pointer inside the uninstrumented libgsl (decided by the forced schedules).', ref='4 C12'),
+ 'C13': dict(engine='Hypothesis + api_ref + LD_PRELOAD kill shim', technique='property-based differential testing at process level (CLI vs API program), metamorphic re-run, fault injection at every write',
+   text='Hypothesis-generated command lines (valid lines with 0-2 mutations) are run through bxdecay0-run; accepted lines are compared record by record with a README-style API program, re-run for byte identity and checked for the completion marker; refused lines must leave no record and no marker; for a sample of accepted lines the process is killed before every write of the run and the marker/completeness invariant is checked. A quarter of the lines also run through the ASan/UBSan build.',
+   note='Kill points are write-syscall granular (category fault_enumeration is reported inside the evidence; the claimed category stays exploration). The exit status of refused lines is not asserted.', ref='4 C13'),
+ 'C14': dict(engine='Hypothesis + real encoder + gacheck', technique='property-based round-trip testing (documented Python encoder -> C++ decoder) and model-based checking of the inverse-c.d.f. sampler',
+   text='Hypothesis builds synthetic p.d.f. tables; the repo\'s own mkocdfdata.py functions write the data files; the native checker (sanitized build) verifies decoder == encoder input to the encoding precision, table validity, cell membership and monotonicity of the inverse-transform sampler over thousands of deviate pairs per data set, shoot() vs sampled quantities for both methods, and mode 21 through decay0_generator.',
+   note='Every table row carries probability; Q exceeds e_min+e_max by at least 2e-4 MeV.', ref='4 C14'),
+ 'C15': dict(engine='libFuzzer', technique='coverage-guided fuzzing with in-target validity oracles under ASan/UBSan',
+   text='Four libFuzzer targets (event_reader, gA p.d.f./o.c.d.f. loaders + samplers, load_optimized_cdf_array, catalogue parsers via the guarded hook) seeded with shipped valid files and encoder output; the oracle (exception or the loader\'s own validity predicate, no sanitizer report, no hang, bounded allocation) sits inside each target; saved regression inputs are replayed first.',
+   note='Only crash-/leak- artifacts count; timeout/oom artifacts only if they reproduce 3x alone; inputs <= 4 KiB.', ref='4 C15'),
+ 'C17': dict(engine='tapecheck+g4check (Geant4 stand-in)', technique='property-based differential testing of the unchanged extension sources against the core generator, on a minimal stand-in for the Geant4 classes',
+   text='The extension sources are compiled unchanged against /verif/g4stub; generated requests (valid with 0-2 mutations) x vertex generators; oracle: the core tools on the same request - same refusal verdict, and for accepted requests one primary per particle with species, momentum (MeV), time (s) and vertex equal to the core generator\'s event on the same seed.',
+   note='The stand-in is part of the trusted base (kept to behaviour the extension observably relies on). For the seed only "core refuses => action refuses" is asserted.', ref='4 C17'),
 }
 NOT_YET = {}
 
@@ -57,8 +72,11 @@ def main():
      'hooks': {'guard': 'BXDECAY0_VERIF', 'enable': 'build.sh passes -DBXDECAY0_VERIF in CMAKE_CXX_FLAGS for every variant (san, fuzz, fast, tsan) built from /repo\'s working tree into /verif/build/<variant>',
                'baseline_off_cmd': './baseline_off.sh', 'source_commits': commits, 'add_only': True},
      'engines': [
-       {'name': 'tapecheck', 'path': 'engine/vf.hpp', 'serves_properties': ['C01', 'C02', 'C03', 'C04', 'C05', 'C06', 'C10', 'C16'], 'kind_free_text': 'own small PBT engine: case = configuration + lazily generated deviate tape (steered by a threshold dictionary harvested from the reference text), shrinking on the tape, replay files'},
+       {'name': 'tapecheck', 'path': 'engine/vf.hpp', 'serves_properties': ['C01', 'C02', 'C03', 'C04', 'C05', 'C06', 'C10', 'C12', 'C16', 'C17'], 'kind_free_text': 'own small PBT engine: case = configuration + lazily generated deviate tape (steered by a threshold dictionary harvested from the reference text), shrinking on the tape, replay files'},
        {'name': 'refdiff', 'path': 'checks/refdiff.cc + ref/', 'serves_properties': ['C01', 'C02', 'C06'], 'kind_free_text': 'Fortran reference oracle (two flavours) bound to the same tape'},
+       {'name': 'libFuzzer', 'path': 'fuzz/', 'serves_properties': ['C08', 'C15'], 'kind_free_text': 'clang libFuzzer targets with in-target oracles, ASan+UBSan, 16 jobs, seed corpora in corpus/'},
+       {'name': 'rapidcheck', 'path': 'checks/proto.cc, checks/history.cc, checks/readercheck.cc', 'serves_properties': ['C07', 'C09', 'C11'], 'kind_free_text': 'generated operation sequences with whole-sequence shrinking against explicit models'},
+       {'name': 'hypothesis', 'path': 'py/c13.py, py/c14.py', 'serves_properties': ['C13', 'C14'], 'kind_free_text': 'process- and file-level generation (command lines, data sets) seeded by VERIF_SEED'},
      ],
      'checks': [], 'not_applicable': [],
      'notes': 'Entry point: ./check <ID> <quick|thorough> [--replay <file>]; VERIF_SEED honoured; evidence/<ID>.json rewritten on every run; known_findings.json lists recorded/fixed defects.',
